@@ -264,6 +264,17 @@ def compare(p, which):
         cat = b"".join(op.data for op in p)
         if got[1] != cat:
             return f"{which} is not the concatenation of the current opcodes' encodings"
+    if which == "dump_file" and got[0] == "ok":
+        # the same view through a text-mode file: refused, or exactly these bytes
+        import os
+
+        from vlib import env
+        from vlib.textdump import text_dump_problem
+
+        os.makedirs(env.SCRATCH, exist_ok=True)
+        msg = text_dump_problem(p, env.SCRATCH, "-c14")
+        if msg:
+            return msg
     return None
 
 
